@@ -116,8 +116,8 @@ CHECKS["C06"] = dict(
 
 CHECKS["C10"] = dict(
     pkg="c10", level="exploration",
-    props=[dict(name="TestPropRoundTrip", quick=48000, thorough=16 * 400000, shards_quick=8, shards_thorough=16, timeout_thorough=7200),
-           dict(name="TestPropDiffMerge", quick=48000, thorough=16 * 400000, shards_quick=8, shards_thorough=16, timeout_thorough=7200)],
+    props=[dict(name="TestPropRoundTrip", quick=48000, thorough=16 * 150000, shards_quick=8, shards_thorough=16, timeout_thorough=7200),
+           dict(name="TestPropDiffMerge", quick=48000, thorough=16 * 150000, shards_quick=8, shards_thorough=16, timeout_thorough=7200)],
     rule="values of a harness struct with every supported field kind (all int/uint widths, float32/64, bool, string, "
          "pointers to scalars, *struct and struct (flat), eight slice kinds, arrays, four string-keyed map kinds, edge "
          "scalars/slice/pointer, id/parent, child list on decode): integers over the kind's range within +-(2^53-1), floats "
